@@ -98,7 +98,13 @@ def map_failures(res, gen, unitcfg):
         # the function whose proof failed: for a precondition failure it is the caller (primary span);
         # for a postcondition the function containing the clause (same fn)
         fn = None
-        for s in (prim + d['spans']):
+        # for a failed postcondition / invariant the primary span is the CLAUSE (which, for a trait-level clause, lies in the
+        # trait's declaration); the function whose body failed is where the other span ("at this exit", "at the end of the
+        # function body") points.  For everything else the primary span is inside the failing function.
+        order = (prim + d['spans'])
+        if kind in ('postcondition',) and status == 'failed':
+            order = [x for x in d['spans'] if not x['is_primary']] + prim
+        for s in order:
             fn = fn_at_line(gen, s['line_start'])
             if fn: break
         mod = module_at_line(midx, line)
